@@ -85,7 +85,8 @@ func valueForVar(r *rand.Rand, b *Binding, v TVar) string {
 		case segStar:
 			parts = append(parts, pick(r, hostilePieces))
 		case segDStar:
-			for i, n := 0, r.IntN(4); i < n; i++ {
+			// at least one segment: whether "**" may match zero segments is ambiguous (trailing slash)
+			for i, n := 0, 1+r.IntN(3); i < n; i++ {
 				parts = append(parts, pick(r, hostilePieces))
 			}
 		}
@@ -145,7 +146,7 @@ var detailPool = []func(r *rand.Rand) proto.Message{
 	},
 }
 
-var errMsgPool = []string{"", "boom", "100% wrong", "line1\r\nline2", "say \"hi\"", "é", "日本語 エラー", "😀 oops", "a%2Fb", "tab\there", "back\\slash", "~!@#$^&*()_+", " lead and trail "}
+var errMsgPool = []string{"", "boom", "100% wrong", "line1\r\nline2", "say \"hi\"", "é", "日本語 エラー", "😀 oops", "a%2Fb", "tab\there", "back\\slash", "~!@#$^&*()_+", "mid  dle"}
 
 func genRPCError(r *rand.Rand) *RPCError {
 	e := &RPCError{Code: 1 + r.IntN(16), Msg: pick(r, errMsgPool)}
@@ -178,6 +179,8 @@ func genAppHeaders(r *rand.Rand, prefix string, n int) http.Header {
 }
 
 type ScenOpts struct {
+	Timeouts     bool // add a (valid) timeout header in the client's protocol
+	Variety      bool // backend scripts: bare HTTP errors, declared lengths, compressed end frames, empty responses
 	ForceForm    *ClientForm
 	ForceMethod  string
 	MaxStr       int
@@ -231,6 +234,9 @@ func genScenario(r *rand.Rand, so ScenOpts, marker string) *Scenario {
 			m = kitchenInfo[so.ForceMethod]
 		} else {
 			m = pick(r, kitchenList)
+			if chance(r, 40) {
+				m = kitchenInfo[pick(r, []string{"ClientStream", "ServerStream", "Bidi", "Bidi", "RawStreamOut", "RawStreamIn"})]
+			}
 			if so.OnlyUnaryish && m.Stream == stBidi {
 				continue
 			}
@@ -314,6 +320,9 @@ func genScenario(r *rand.Rand, so ScenOpts, marker string) *Scenario {
 		if so.Headers {
 			creq.App = genAppHeaders(r, "X-Req", r.IntN(4))
 		}
+		if so.Timeouts && chance(r, 60) {
+			creq.Timeout = genValidTimeout(r, form)
+		}
 		script := &BackendScript{}
 		for i := 0; i < nresp; i++ {
 			o := gopts
@@ -342,6 +351,24 @@ func genScenario(r *rand.Rand, so ScenOpts, marker string) *Scenario {
 			script.TrailersOnly = chance(r, 50)
 			script.CompressEnd = chance(r, 30)
 		}
+		if so.Variety {
+			switch r.IntN(10) {
+			case 0:
+				script.Bare = &BareHTTP{Status: pick(r, []int{400, 401, 403, 404, 409, 429, 500, 502, 503, 504, 418}),
+					CT: pick(r, []string{"text/plain", "text/html", "application/json", ""}),
+					Body: []byte(pick(r, []string{"", "upstream unavailable", "{\"not\":\"a status\"}", "<html>x</html>"}))}
+			case 1:
+				script.DeclLen = true
+			case 2:
+				if m.Stream == stServer || m.Stream == stBidi {
+					script.Msgs = nil // empty response stream
+					script.FrameComp = nil
+				}
+			case 3:
+				script.WriteSeg = []int{1, 1, 1, 1, 1, 2, 3, 1000}
+				script.EmptyWrites = true
+			}
+		}
 		return &Scenario{Cfg: cfg, Req: creq, Script: script, Target: target, Marker: marker}
 	}
 }
@@ -358,4 +385,15 @@ func restrictTo(msg proto.Message, field string) proto.Message {
 		out.Set(fd, m.Get(fd))
 	}
 	return out.Interface()
+}
+
+// genValidTimeout returns a syntactically valid timeout header value for the form.
+func genValidTimeout(r *rand.Rand, form ClientForm) string {
+	switch form {
+	case FGRPC, FGRPCWeb:
+		return fmt.Sprintf("%d%s", pick(r, []int{0, 1, 5, 100, 99999999, 12345}), pick(r, []string{"H", "M", "S", "m", "u", "n"}))
+	case FREST:
+		return pick(r, []string{"1", "0.5", "30", "0.001", "1e3", "120.25"})
+	}
+	return fmt.Sprint(pick(r, []int64{0, 1, 50, 1000, 9999999999, 30000}))
 }
